@@ -1,6 +1,36 @@
 """Per-property manifest entries (edited by hand, rendered by mkmanifest.py)."""
 T_PBT = "property-based testing (Hypothesis): "
 CHECKS = {
+ "C15": {
+  "technique": T_PBT + "membership/pairing/shape/seed invariants, binomial distribution test, exhaustive malformed-shape list",
+  "text": "resample_orientations on generated stacks (N<=4, M<=200, volumes with zeros/duplicates/dominant grain, n_samples up to 1e5; 1e6 thorough): every output (orientation, volume) pair is an input pair of the same snapshot, zero-volume grains never drawn, shapes and default n_samples, same seed => identical bytes; per-grain counts vs Binomial(n, f) with z<=7 for n>=2e4 and convergence of a sample mean; 22 malformed shape combinations must raise ValueError.",
+  "note": "No sample-path oracle (any correct sampler passes). A uniform variate exactly 0.0 (probability 2^-53 per draw) would select a zero-volume grain: unreachable by sampling seeds.",
+ },
+ "C16": {
+  "technique": T_PBT + "round trip over generated schemas and tables, independent parsing of the written file, single-fault injection",
+  "text": "save_scsv/read_scsv on generated schemas (95 delimiters, markers incl. '' and Unicode, 1..8 fields over five types, typed and string-form fills, YAML-significant strings, units) and tables (1..10 rows; tiled to 1e4 in thorough) incl. planted fill-equal cells, '---', quotes, delimiter characters: names and typed values round-trip, the marker sits exactly where cell==fill (independent csv parse of the file); terse-schema parser feeds a second family; 17 fault kinds (schema and data, save and read side) must raise SCSVError.",
+  "note": "Markers that parse as numeric/boolean literals and field names that namedtuple rejects (keywords, leading underscore, duplicates) are outside the generated domain; stated in the rule. Booleans are never written as marker (format spec).",
+ },
+ "C17": {
+  "technique": T_PBT + "model-based stateful testing (generated save/load/fault sequences against an in-memory model of the archives)",
+  "text": "Operation sequences over a temp directory with two archives: saves (whole file / distinct postfixes) of minerals with arbitrary float64 bit patterns (NaN payloads, inf, -0.0, denormals), loads through Mineral.load into an object of a different grain count and through Mineral.from_file in any order, fault steps (unequal snapshot counts, n_grains mismatch, later snapshot of wrong size, non-.npz names). After every load: phase/fabric/regime/n_grains equal and every snapshot bit-identical to the model; after every step the directory listing matches the model; faults raise ValueError without touching the disk; final sweep reloads everything in reverse order.",
+  "note": "Whole-file save is modelled as overwrite (numpy.savez). save() under a non-.npz name need not raise; if it raises nothing may be written.",
+ },
+ "C18": {
+  "technique": T_PBT + "differential testing against closed-form and finite-difference Jacobians, independent ODE integration of pathlines, numpy reference for strain increments",
+  "text": "For the three flow families x six axis pairs x amplitudes 1e-15..1e2 x sizes 1e-2..1e6 at generated interior points: L equals the closed-form Jacobian (1e-9) and the Richardson finite-difference Jacobian of the velocity callable (1e-5), tr L = 0, flow confined to its plane. Pathlines for generated boxes/end points/strain limits: returned, end at the final location at t=0, strictly increasing timestamps, agree with an independent DOP853 backward integration within 1e-3 box, stay in the box, accumulated strain <= 1.25 max. strain_increment vs numpy (1e-10). Known findings (simple-shear L=2*Jacobian, cell_2d exchanged entries, root-finder ValueError) are replaced by exact known-behaviour models so that further deviations are still reported.",
+  "note": "The three known findings are pinned by doctests or need a redesign; see KNOWN_FINDINGS.txt.",
+ },
+ "C19": {
+  "technique": T_PBT + "round trip of parameter records, exhaustive preset check against values extracted from source with ast, model-based generation of TOML configurations with single-fault injection",
+  "text": "DefaultParams: frozen, hashable, as_dict round trip with generated overrides. Every preset class of pydrex.mock x every declared value (ast-extracted) by attribute and as_dict (exhaustive). parse_config on TOML generated from a model over 4 input modes x subsets of 15 [parameters] keys x 6 [output] keys x phase lists by name/ordinal in both orders x fabric letters: every omitted optional key takes its documented default, invariants (equal-length lists, fractions sum to 1, enum types); 13 fault kinds must raise ConfigError.",
+  "note": "Documented defaults taken from the bundled spec files' comments and DefaultParams.",
+ },
+ "C20": {
+  "technique": T_PBT + "round trips, closed-form oracles, metamorphic permutation/sign-flip invariance",
+  "text": "to_spherical/to_cartesian on points of magnitude 1e-150..1e150 incl. axes, planes and near-pole directions: identity (1e-12, widened by 2e-15/sin(theta) near the poles), phi = atan2(y,x) mod 2pi, theta = acos(z/r). poles(): unit vectors equal to the crystal direction in the external frame with the documented component permutation for the six ref_axes strings. lambert_equal_area: R^2 = 1-|z|, azimuth preserved, closed unit disk, inverse lifting identity. point_density for five kernels, sigma 3..20, axial on/off, 1..300 data, grids 5..41: finite, >=0, grid in the disk, mean >=1 (=1 unclipped), invariant under data permutation and (axial) sign flips.",
+  "note": "Known finding: schmidt_count with no counter within the 1% cap of any datum returns NaN (0/0); that class is checked against the known behaviour only.",
+ },
  "C10": {
   "technique": T_PBT + "differential testing against an einsum reference; texture-independent invariants; metamorphic frame rotation and list reordering; fault injection for malformed inputs",
   "text": "voigt_averages on generated minerals (1..3 snapshots, 1..24 grains, all texture/volume families), assemblages [ol],[en],[ol,en],[en,ol] with minerals in either order, fractions k/1000, default or custom (orthorhombic/triclinic) stiffness: equals the einsum volume-weighted sum (1e-9 rel), symmetric, K_V and G_V equal the phase-weighted single-crystal moduli, co-rotates with Q, independent of mineral and phase-list order; one aligned grain returns C_phase; mismatched grain/snapshot counts raise ValueError.",
